@@ -27,11 +27,29 @@ CLAIMED = {
    technique="stateless model checking of both runners: deviation-bounded DFS with a canceller task whose cancel() lands between any two scheduling points, and a fault-injecting block failing on its k-th call at every position of a 3-chain",
    text="For infinite and finite sources on Graph and MTGraph: every placement (up to d deviations) of cancel() must make run() return Ok with all threads joined and at most 2 further work() calls per block; a block failing on call k (k=1..3) at each of 3 positions must make run() return exactly that error - not panic, hang or Ok.",
    note="Trusted: as C03; the Instrumented wrapper block that counts calls and injects failures.", ref="DESIGN.md 3-E2, 5-C07"),
+ "C08": dict(level="model_checking", engine="envx",
+   technique="bounded-exhaustive enumeration of environment-answer sequences (feed k / release k / nothing, then work()) around one real block, from several ring offsets and output fill levels, with a flush tail; differential oracle against the one-shot run",
+   text="For every stream-processing block variant in the registry, every sequence of environment actions up to the horizon (drip-feeding 1, 2, q-1, q, q+1 samples; freeing 1, 2, q output slots; doing nothing) is executed on the real block over capacity-2 (fat samples) or pre-positioned native streams, then flushed; the concatenated output must be a prefix of, and after the flush equal to, the output of one-shot delivery on ample streams, bit for bit, with no panic.",
+   note="Trusted: the harness ports (feed/observe/release), the stream-plan hook that makes small / pre-positioned streams, fixed test vectors per variant.", ref="DESIGN.md 3-E3, 5-C08"),
+ "C09": dict(level="model_checking", engine="envx",
+   technique="same enumeration as C08 plus a 'satisfy exactly the named stream' action; trace oracle on every step (leaked windows, false/misdirected waits, idle Again, retirement after inputs end)",
+   text="Every step of every enumerated execution is judged: no stream window may outlive work(); a wait must name a stream that lacks what is asked, or else the following call must make progress or name another stream (checked with an action that gives the named stream exactly what it asked for and nothing else); three 'Again' in a row with zero stream activity and an untouched environment is an idle spin; once all inputs are closed and drained the verdict must be EOF or a wait on an ended input.",
+   note="Trusted: activity counter and live-window registry hooks; StreamWait::verif_id to identify the named stream. Waits on a composite block's internal streams are not judged.", ref="DESIGN.md 3-E3, 5-C09"),
+ "C10": dict(level="model_checking", engine="envx",
+   technique="executable specifications written from the documentation, compared with the real block's output on the one-shot run and on every enumerated chunked delivery; parameter grids per block",
+   text="For each exactly-specified block and each parameter set in the grid, the output (values and count) of the real block equals the specification's, on one-shot delivery and on every drip-feed schedule of the C08 enumeration.",
+   note="Trusted: the executable specifications (vcommon::specs and the subject registry). Inputs are fixed boundary vectors per block, not all inputs.", ref="DESIGN.md 3-E3, 5-C10, 6.3"),
+ "C12": dict(level="model_checking", engine="envx",
+   technique="C08 enumeration over tagged test vectors: every placement of up to two tags (incl. two on one sample) on a 6-sample vector, crossed with all drip-feed schedules; absolute-index tag multiset oracle, plus 'tags of a delivered sample never change'",
+   text="Tags are converted to absolute output indices the first time their sample is seen; after the flush the multiset must equal the specification (identity, shifted by delay, index/decimation, after-skip), no tag may appear at or beyond the window length, on pre-existing samples, or change on a sample that was already delivered.",
+   note="Trusted: harness output port bookkeeping; tag specs in the subject registry.", ref="DESIGN.md 3-E3, 5-C12"),
 }
 
 ENGINES = [
  {"name": "ring", "path": "/verif/harness/seq/src/ring.rs", "serves_properties": ["C01", "C02"],
   "kind_free_text": "explicit-state search of the real circular buffer, replay-per-state, reference-model oracle"},
+{"name": "envx", "path": "/verif/harness/seq/src/envx.rs", "serves_properties": ["C08", "C09", "C10", "C12", "C16", "C19"],
+  "kind_free_text": "bounded-exhaustive enumeration of environment-answer sequences around one real block (harness owns all stream ends), re-execution per sequence"},
  {"name": "mt", "path": "/verif/harness/mt/src", "serves_properties": ["C03", "C04", "C05", "C07"],
   "kind_free_text": "stateless model checking: deviation-bounded DFS over schedules of the real code on the shuttle runtime, timeouts as scheduler choices"},
 ]
